@@ -50,6 +50,14 @@ CLASSES = {
     "NORMAL": ["getEui64", "getNodeId", "networkState"],
     "LOW": ["sendUnicast", "sendMulticast", "sendBroadcast"],
 }
+# further members of the classes, used in the seeded part where the version has them: the route /
+# extended-timeout set-up of a packet send belongs to the packet-send class; commands whose frame ID
+# means something else in another protocol version are ordinary commands like any other
+EXTRA = {
+    "HIGH": [],
+    "NORMAL": ["setSourceRouteDiscoveryMode", "getConfigurationValue", "getNetworkParameters", "getCurrentSecurityState"],
+    "LOW": ["setSourceRoute", "setExtendedTimeout"],
+}
 RANK = {"HIGH": 2, "NORMAL": 1, "LOW": 0}
 BEHAVIOURS = ["now", "delay", "late", "never", "twice", "cb_before", "cb_after", "foreign", "sendfail"]
 SEND_LATENCY = 0.2
@@ -435,6 +443,9 @@ def gen_cases(tier, seed, V):
     cases = []
     clsn = list(CLASSES)
     rnd = random.Random(seed * 31 + V)
+    import bellows.ezsp as e_
+
+    cmds = e_.EZSP._BY_VERSION[V].COMMANDS
     # exhaustive: 3 simultaneous callers x classes x behaviours
     for cl in itertools.product(clsn, repeat=3):
         for bh in itertools.product(BEHAVIOURS, repeat=3):
@@ -446,7 +457,8 @@ def gen_cases(tier, seed, V):
         callers = []
         for i in range(k):
             c = rnd.choice(clsn)
-            callers.append(dict(cls=c, name=rnd.choice(CLASSES[c]), beh=rnd.choice(BEHAVIOURS + ["now", "now", "delay"]),
+            pool = CLASSES[c] + [x for x in EXTRA[c] if x in cmds]
+            callers.append(dict(cls=c, name=rnd.choice(pool), beh=rnd.choice(BEHAVIOURS + ["now", "now", "delay"]),
                                 offset=rnd.choice([0.0, 0.0, 0.0, 0.1, 0.25, 0.7, 5.0]),
                                 cancel=rnd.choice([None, None, None, "queued", "sending", "waiting"])))
         cases.append({"callers": callers, "seed": rnd.randrange(10 ** 6)})
